@@ -231,9 +231,22 @@ def oracle(line, f, model):
         bad.append(('client-garbage', 'a client read bytes that are not a WebSocket frame', True))
     # --- (A) conformance verdict
     if not model.startswith('accepted'):
+        # the correspondence broke: the direct checks below look for a concrete failure of the property on this scenario
         bad.append(('trace', 'the hook log is not a run of the model: ' + model[:300], False))
-        return bad, stats
-    m = dict(kv.split('=', 1) for kv in model.split(' ')[1:])
+        m = {'sessions': 'ok', 'offwf': '0', 'stuck': 'false', 'exited': 'true' if any(e[0] == 'shutdown' for e in H) else 'false'}
+    else:
+        m = dict(kv.split('=', 1) for kv in model.split(' ')[1:])
+    # the session discipline, directly on the logged dispatch sequence: (c m* x)* (c m*)? per address
+    open_ = {}
+    for e in H:
+        if e[0] == 'd':
+            ad, k = e[2], e[1]
+            o = open_.get(ad, False)
+            if (k == 'c' and o) or (k != 'c' and not o):
+                bad.append(('sessions', 'dispatch %s for %s while its session is %s' % (
+                    {'c': 'Connect', 'm': 'Message', 'x': 'Disconnect'}[k], ad, 'open' if o else 'closed'), True))
+                break
+            open_[ad] = k != 'x'
     if m['sessions'] != 'ok':
         bad.append(('sessions', 'dispatch sequence violates the session discipline for ' + m['sessions'], True))
     elif m['offwf'] != '0':
